@@ -211,14 +211,34 @@ func runC03(c *Ctx) {
 				bysig := map[string][]string{}
 				for _, d := range diffs {
 					key := strings.SplitN(d, "\n", 2)[0]
-					bysig[c03Sig(key)] = append(bysig[c03Sig(key)], d)
+					sig := c03Sig(key)
+					if strings.HasPrefix(key, "settings:") {
+						// one signature per instance and differing setting, so that distinct defects stay distinct
+						sig = "settings " + strings.TrimPrefix(key, "settings:") + " " + c03SettingsDiff(before[key], after[key])
+					}
+					bysig[sig] = append(bysig[sig], d)
 				}
 				for sig, ds := range bysig {
 					if len(ds) > 4 {
 						ds = ds[:4]
 					}
+					extra := ""
+					if strings.HasPrefix(sig, "settings ") {
+						if lg, err := os.ReadFile(dir + "/dvid.log"); err == nil {
+							var ls []string
+							for _, ln := range strings.Split(string(lg), "\n") {
+								if strings.Contains(ln, "ranch") || strings.Contains(ln, "ERROR") || strings.Contains(ln, "CRITICAL") {
+									ls = append(ls, ln)
+								}
+							}
+							if len(ls) > 12 {
+								ls = ls[len(ls)-12:]
+							}
+							extra = "\n\nserver log (branch / error lines, last 12):\n" + strings.Join(ls, "\n")
+						}
+					}
 					c.Report("O", "C03 differs-after-restart "+sig, "a read endpoint answers differently after a restart ("+how+")",
-						strings.Join(ds, "\n")+"\n\nhistory:\n  "+strings.Join(w.hist, "\n  "))
+						strings.Join(ds, "\n")+"\n\nhistory:\n  "+strings.Join(w.hist, "\n  ")+extra)
 				}
 				c.Evals += len(before)
 			}
@@ -229,6 +249,47 @@ func runC03(c *Ctx) {
 		}
 		os.RemoveAll(dir)
 	}
+}
+
+// c03SettingsDiff names the settings that differ between two c03Settings strings (top-level fields of the type's
+// own settings, or the generic part)
+func c03SettingsDiff(a, b string) string {
+	split := func(s string) (string, map[string]interface{}) {
+		i := strings.Index(s, " extended=")
+		if i < 0 {
+			return s, nil
+		}
+		var m map[string]interface{}
+		json.Unmarshal([]byte(s[i+len(" extended="):]), &m)
+		return s[:i], m
+	}
+	ga, ma := split(a)
+	gb, mb := split(b)
+	// the repo info of a label volume reports the extents of the master branch's leaf when it can resolve that
+	// leaf, and the instance-wide ones otherwise: a flip of that source is one symptom, whatever fields follow
+	if strings.Contains(ga, "extents-of-master-leaf=true") != strings.Contains(gb, "extents-of-master-leaf=true") {
+		return "extents-source-flips"
+	}
+	var out []string
+	if ga != gb {
+		out = append(out, "generic")
+	}
+	keys := map[string]bool{}
+	for k := range ma {
+		keys[k] = true
+	}
+	for k := range mb {
+		keys[k] = true
+	}
+	for k := range keys {
+		x, _ := json.Marshal(ma[k])
+		y, _ := json.Marshal(mb[k])
+		if string(x) != string(y) {
+			out = append(out, k)
+		}
+	}
+	sort.Strings(out)
+	return strings.Join(out, ",")
 }
 
 // c03Canon: JSON with sorted keys; an absent collection and an empty one read the same (null, {}, [])
@@ -277,6 +338,7 @@ func c03Settings(repoInfo []byte) map[string]string {
 				Checksum    string
 			}
 			Extended json.RawMessage
+			Extents  json.RawMessage
 		}
 	}
 	out := map[string]string{}
@@ -291,7 +353,7 @@ func c03Settings(repoInfo []byte) map[string]string {
 		if len(d.Base.Tags) == 0 {
 			tags = []byte("{}")
 		}
-		out[name] = fmt.Sprintf("type=%s syncs=%v versioned=%v compression=%s checksum=%s tags=%s extended=%s", d.Base.TypeName, sy, d.Base.Versioned, d.Base.Compression, d.Base.Checksum, tags, c03Canon(d.Extended))
+		out[name] = fmt.Sprintf("type=%s syncs=%v versioned=%v compression=%s checksum=%s tags=%s extents-of-master-leaf=%v extended=%s", d.Base.TypeName, sy, d.Base.Versioned, d.Base.Compression, d.Base.Checksum, tags, len(d.Extents) > 0, c03Canon(d.Extended))
 	}
 	return out
 }
